@@ -53,6 +53,11 @@ Pool(kind, nv) ==
          <<[m |-> "where", crit |-> [k |-> "in", a |-> Fld("T1", "b"), items |-> <<NumV(nv), NegV(nv + 1)>>]], 2>>,
          <<[m |-> "where", crit |-> [k |-> "between", a |-> Fld("T1", "b"), lo |-> NumV(nv), hi |-> FltV(nv + 1)]], 2>>,
          <<[m |-> "where", crit |-> Cmp(Fld("T1", "c"), BoolV(nv))], 1>>,
+         \* the SAME value twice, and values that compare equal in Python without being the same datum (1, TRUE, 1.0): one placeholder and one list entry each
+         <<[m |-> "where", crit |-> [k |-> "bin", op |-> "AND", l |-> Cmp(Fld("T1", "b"), NumV(nv)), r |-> Cmp(Fld("T1", "c"), NumV(nv))]], 1>>,
+         <<[m |-> "where", crit |-> [k |-> "bin", op |-> "AND", l |-> Cmp(Fld("T1", "a"), [k |-> "num", n |-> "1"]),
+                                       r |-> [k |-> "bin", op |-> "AND", l |-> Cmp(Fld("T1", "c"), [k |-> "bool", v |-> TRUE]),
+                                              r |-> [k |-> "bin", op |-> "AND", l |-> Cmp(Fld("T1", "b"), [k |-> "flt", n |-> "1.0"]), r |-> Cmp(Fld("T1", "b"), NumV(nv))]]]], 1>>,
          \* a constant in EVERY operand slot, subject included (the value list has to follow the text left to right)
          <<[m |-> "where", crit |-> [k |-> "between", a |-> [k |-> "bin", op |-> "+", l |-> Fld("T1", "b"), r |-> NumV(nv)], lo |-> NumV(nv + 1), hi |-> NumV(nv + 2)]], 3>>,
          <<[m |-> "where", crit |-> [k |-> "in", a |-> [k |-> "bin", op |-> "+", l |-> Fld("T1", "b"), r |-> NumV(nv)], items |-> <<NumV(nv + 1), StrV(nv + 2)>>]], 3>>,
